@@ -7,17 +7,6 @@ import (
 
 // C01b / C02c / C02d: messages assembled through the public API.
 
-type zzRecWriter struct {
-	got   []byte
-	calls int
-}
-
-func (w *zzRecWriter) Write(p []byte) (int, error) {
-	w.calls++
-	w.got = append(w.got, p...)
-	return len(p), nil
-}
-
 // zzMenuAVP builds one AVP of the chosen menu kind together with its reference image and records
 // the dictionary type the decoder must see for its code.
 func zzMenuAVP(kind int, d *dict.Parser, app uint32) (a *AVP, ref []byte, ty datatype.TypeID) {
